@@ -267,7 +267,7 @@ def replay_lattice(chk, lattice, pool, rnd, nproc):
     second = chosen if thorough else rnd.sample(chosen, len(chosen) // 10)
     jobs += [(c[::-1], False) for c in [second[i::nproc * 2] for i in range(nproc * 2)] if c]
     ncalls = 0
-    for bad, n in timed(pool.imap_unordered(_pairs_worker, jobs), len(jobs), 300, "neighbours of 7-smooth numbers"):
+    for bad, n in timed(pool.imap_unordered(_pairs_worker, jobs), len(jobs), 2400 if chk.tier == "thorough" else 900, "neighbours of 7-smooth numbers"):
         ncalls += n
         for key, fn, N, e, got, t in bad:
             _call_violation(chk, key, fn, N, e, got, "neighbour of a 7-smooth number", t)
@@ -317,7 +317,7 @@ def run_trace(chk, lattice, pool, rnd, nproc, lattice_file):
     n = 20000 if chk.tier == "thorough" else 1500
     ns = trace_inputs(lattice, rnd, n)
     res = []
-    for part in timed(pool.imap(_calls_worker, [ns[i::nproc] for i in range(nproc)]), nproc, 300, "sampled N of the trace"):
+    for part in timed(pool.imap(_calls_worker, [ns[i::nproc] for i in range(nproc)]), nproc, 2400 if chk.tier == "thorough" else 900, "sampled N of the trace"):
         res += part
     events = []
     for i, (N, a, b, err) in enumerate(res):
@@ -525,7 +525,7 @@ def run(chk):
         res = {}
         tier = "full" if thorough else "quick"
         th = [threading.Thread(target=_tlc_gen, args=(chk, "loops", "Gen_FastLen", "Gen_FastLen_%s.cfg" % tier, res),
-                               kwargs=dict(workers=16 if thorough else 12, timeout=3000 if thorough else 400, heap="12g" if thorough else "8g",
+                               kwargs=dict(workers=16 if thorough else 12, timeout=3000 if thorough else 1500, heap="12g" if thorough else "8g",
                                            extra=("-fpmem", "0.5") if thorough else ())),
               threading.Thread(target=_tlc_gen, args=(chk, "lattice", "Gen_Smooth", "Gen_Smooth.cfg", res),
                                kwargs=dict(workers=4, timeout=600, heap="2g")),
@@ -536,7 +536,7 @@ def run(chk):
         # the wrong variants must be rejected (the invariants are not vacuous)
         negs = {}
         for cfg, what in NEGS:
-            r = tlc.run("MC_FastLen", cfg, workers=2, timeout=300, heap="2g")
+            r = tlc.run("MC_FastLen", cfg, workers=2, timeout=900, heap="2g")
             chk.add_tlc("neg:" + cfg, r)
             negs[cfg] = r.violation
             if r.ok or r.violation is None:
@@ -581,7 +581,7 @@ def run(chk):
         if os.path.exists(out):
             os.remove(out)
     except Hang as h:
-        chk.violation("termination", "next_fast_len / prev_fast_len did not return within 300 s on %s" % h,
+        chk.violation("termination", "next_fast_len / prev_fast_len did not return within the watchdog time (900 s quick / 2400 s thorough) on %s" % h,
                       {"kind": "hang", "what": str(h)})
     finally:
         pool.terminate()
